@@ -30,7 +30,7 @@ RULE = (
     "missing, unknown, mistyped, prefix/ambiguous enum). Each document in up to 6 texts: conservative canonical spelling, the same with one META line repeated, 2 seeded "
     "lenient spellings, the emitted canonical text (and its own canonical text); profiles STRICT/STANDARD/LENIENT/ULTRA. "
     "Oracle: equal (status, error set, warning set) across texts per profile via octave_validate (persistent instance), "
-    "Validator and octave_write(corrections_only); fix=false canonical == emit(parse_with_warnings(x)); repeat call and "
+    "Validator, octave_write(corrections_only) and `octave validate --stdin --schema` (exit code, status line, error codes); fix=false canonical == emit(parse_with_warnings(x)); repeat call and "
     "call-after-fix=true return the same envelope. Non-trivial = the schema has a TYPE/CONST/RANGE/ENUM member (or is "
     "META/SKILL with a META block) and a respelling changes quoting, an operator or a number spelling; distinct by text."
 )
@@ -141,6 +141,24 @@ def relation(schema: str, texts, with_write: bool, root: str | None, section_sch
                     fails.append(("C09:unlisted:call-after-fix-differs",
                                   f"fix=false after an intervening fix=true call on the same text differs ({label}): {fmt(triple(r3))} "
                                   f"canonical={r3.get('canonical')!r} vs {fmt(t)} canonical={r.get('canonical')!r}"))
+        # `octave validate --stdin --schema S` (packaged schemas only: the CLI resolves built-in names)
+        if schema in ("META", "SKILL"):
+            code, out, err, exc = tools.cli(["validate", "--stdin", "--schema", schema], input=text)
+            if exc is not None:
+                fails.append(("C09:unlisted:cli-validate-raised", f"`octave validate` raised {exc!r} ({label}) | text={text!r}"))
+            else:
+                m = re.search(r"(?m)^validation_status: (\w+)$", out or "")
+                codes = frozenset(re.findall(r"(?m)^  (E\w+|W\w+): ", err or ""))
+                tc = (code, m.group(1) if m else None, codes)
+                if "cli" not in base:
+                    base["cli"] = (label, tc, text)
+                elif tc != base["cli"][1]:
+                    fails.append(("C09:unlisted:cli-verdict-differs-across-spellings",
+                                  f"`octave validate --schema {schema}`: [{base['cli'][0]}] {base['cli'][1]} != [{label}] {tc} | stderr={err[:300]!r} | "
+                                  f"text1={base['cli'][2]!r} | text2={text!r}"))
+                if m and not (out or "").startswith(plain):
+                    fails.append(("C09:unlisted:cli-validate-altered-content",
+                                  f"`octave validate` (no --fix) printed a text that is not the plain canonicalisation ({label}): {out[:400]!r} vs {plain[:400]!r}"))
         # Validator directly on the parsed document
         if section_schemas is not None:
             errs = Validator(schema=None).validate(d, strict=False, section_schemas=section_schemas)
